@@ -47,7 +47,8 @@ namespace cnl {
                 CNL_IMPL_CONSTANT_VALUE_TYPE InputValue = 0>
         [[nodiscard]] constexpr auto make_static_integer(constant<InputValue>)
         {
-            return static_integer<used_digits(InputValue), RoundingTag, OverflowTag, Narrowest>{InputValue};
+            // (digits of the magnitude, as make_elastic_integer: the range of D digits is +-(2^D - 1), so -8 needs 4)
+            return static_integer<digits_v<constant<InputValue>>, RoundingTag, OverflowTag, Narrowest>{InputValue};
         }
     }
 }
